@@ -57,16 +57,22 @@ class _watchdog:  # noqa: N801
             def handler(signum, frame):  # noqa: ARG001
                 raise Hang
 
+            import time
+
             self.old = signal.signal(signal.SIGALRM, handler)
-            signal.setitimer(signal.ITIMER_REAL, self.seconds, self.seconds)
+            self.t0 = time.monotonic()
+            self.outer = signal.setitimer(signal.ITIMER_REAL, self.seconds, self.seconds)     # (an enclosing timer, if any, is resumed on exit)
         return self
 
     def __exit__(self, *exc):
         import signal
+        import time
 
         if self.on:
             signal.setitimer(signal.ITIMER_REAL, 0, 0)
             signal.signal(signal.SIGALRM, self.old)
+            if self.outer[0] > 0:
+                signal.setitimer(signal.ITIMER_REAL, max(self.outer[0] - (time.monotonic() - self.t0), 0.01), self.outer[1])
         return False
 
 
